@@ -1482,7 +1482,9 @@ void CDNS::IndexListItem::read(CdnsDecoder& dec)
     reset();
     bool indef = false;
     uint64_t length = dec.read_array_start(indef);
-    list.reserve(length);
+    // Length comes from input data, don't trust it with memory allocation
+    const uint64_t reserve_limit = CdnsDecoder::BUFFER_SIZE;
+    list.reserve(length < reserve_limit ? length : reserve_limit);
 
     while (length > 0 || indef) {
         if (indef && dec.peek_type() == CborType::BREAK) {
